@@ -46,7 +46,7 @@ THEOREMS = {
                                   "Tr.conns_shift", "Tr.wfData_shift", "Tr.C12_departure_reason", "Tr.C12_arrival_reason", "Tr.C12_map_status_departure", "Tr.C12_map_status_arrival",
                                   "Tr.CaughtF.shift", "Tr.CaughtR.shift", "Tr.allNodes_ok_iff_forward", "Tr.allNodes_ok_iff_reverse",
                                   "Tr.nv_shift", "Tr.nv_shift_maps", "Tr.nv_shift_nonneg", "Tr.nv_nonneg", "Tr.nv_results"]),
-    "C16": ("TrVerif.Props.C16", ["Tr.C16_connections", "Tr.C16_reverse_footpaths", "Tr.C16_sorted_lists", "Tr.C16_trip_lists", "Tr.C16_scenario_set"]),
+    "C16": ("TrVerif.Props.C16", ["Tr.C16_connections", "Tr.C16_reverse_footpaths", "Tr.C16_sorted_lists", "Tr.C16_trip_lists", "Tr.C16_scenario_set", "Tr.C16_comparators"]),
     "C13": ("TrVerif.Props.C13", ["Tr.C13_history_independent", "Tr.C13_cache_kind_irrelevant", "Tr.C13_structure"]),
     "C14": ("TrVerif.Props.C14", ["Tr.C14_interleavings", "Tr.C14_progress", "Tr.C14_structure"]),
     "C15": ("TrVerif.Props.C15", ["Tr.C15_answers", "Tr.C15_all", "Tr.C15_schedules", "Tr.C15_old_state_irrelevant", "Tr.C15_status", "Tr.C15_structure", "Tr.C15_order"]),
@@ -204,7 +204,7 @@ _reg("C15", "PROOF (over the refresh model): Tr.C15_answers - after /updateCache
 _reg("C16", "PROOF (partial: the data layer only) + differential run of the real binary: the model's Dataset is the record-level content of the cache files; Tr.C16_connections - a trip yields one "
      "connection per consecutive stop pair, the i-th leaving stop i of the path at the i-th departure time, reaching stop i+1 at the (i+1)-th arrival time, with the boarding flag of stop i, the "
      "alighting flag of stop i+1 and sequence i+1; Tr.C16_reverse_footpaths - reverse footpaths are exactly the footpaths read backwards; Tr.C16_sorted_lists - both global lists hold exactly "
-     "the connections of all trips, ordered by the two comparators; Tr.C16_trip_lists - the per-trip lists are the trip's connections in hop / reverse hop order; Tr.C16_scenario_set - a scenario's "
+     "the connections of all trips, ordered by the two comparators (whose keys and directions are re-read from the source: Tr.C16_comparators); Tr.C16_trip_lists - the per-trip lists are the trip's connections in hop / reverse hop order; Tr.C16_scenario_set - a scenario's "
      "set is the filter of both lists by the scenario's admission test with both hour indexes built from the filtered lists. NOT modelled, hence NOT proved: the bytes (Cap'n Proto decoding is "
      "trusted base) and the loaders' own code (field mapping, uuid resolution, JSON segment distances). That the real loaders produce this data layer is decided by running: generated datasets are "
      "written as cache directories with the repository's own schemas, loaded by the real server binary (ASan+UBSan) behind a scripted walking-router stub; every HTTP answer is compared with the "
